@@ -38,6 +38,9 @@ func (c *TraitOf[V]) PrepareRead(ctx context.Context, cacheEntry *TraitEntryOf[V
 		return v, ErrNotFound
 	}
 
+	// Expiration is read before the clock, otherwise a concurrent ExpireAll could stamp the entry
+	// with a time later than now and an expired entry would be served as fresh.
+	expireAt := atomic.LoadInt64(&cacheEntry.E)
 	now := ts(time.Now())
 
 	if cacheEntry != nil && c.Config.EvictionStrategy != EvictMostExpired {
@@ -49,7 +52,7 @@ func (c *TraitOf[V]) PrepareRead(ctx context.Context, cacheEntry *TraitEntryOf[V
 		}
 	}
 
-	if e := atomic.LoadInt64(&cacheEntry.E); e != 0 && e < now {
+	if expireAt != 0 && expireAt < now {
 		if c.Log.logDebug != nil {
 			c.Log.logDebug(ctx, "cache key expired", "name", c.Config.Name)
 		}
